@@ -11,10 +11,14 @@ for d in sorted((V / "seeded").iterdir()):
     r = json.loads((d / "result.json").read_text()) if (d / "result.json").exists() else {}
     summ = re.sub(r"\s+", " ", str(m.get("summary", "")))[:230].replace("|", "/")
     det = "not run"
-    if r:
+    if m.get("obsolete"):
+        det = "obsolete on the current tree: " + re.sub(r"\s+", " ", m["obsolete"])[:160]
+    elif r:
         det = ("yes, failing input" if r.get("with_failing_input") else "yes, no-failing-input-found") if r.get("detected") else "**missed**"
         det += f" ({r.get('tier','quick')}, {r.get('check_wall_s','?')} s)"
     first = m.get("first_result", "")
+    if m.get("rebased"):
+        first = (first + "; " if first else "") + "patch rebased: " + re.sub(r"\s+", " ", m["rebased"])[:120]
     rows.append(f"| {d.name} | {summ} | {det}{' — ' + first if first else ''} |")
 table = ["| seed | change (as described by its author) | `./check` of its property |", "|---|---|---|"] + rows
 p = V / "DESIGN.md"
